@@ -474,7 +474,8 @@ fn corpus() -> Vec<Case> {
               type A implements I { id: ID x: Int b: B }\n\
               type B implements I { id: ID y: Int }\n\
               union U = A | B\n\
-              type Subscription { a: Int b: Int }\n";
+              type Subscription { a: Int b: Int }\n\
+              directive @tag(label: String) repeatable on FRAGMENT_DEFINITION | FIELD | QUERY\n";
     let c = |name: &str, doc: &str, labels: Vec<Label>| Case { sdl: vec![s1.to_string()], text: doc.to_string(), labels, origin: format!("corpus:{name}"), features: vec![name.to_string()], raw_schema: false };
     vec![
         // C03 rows
@@ -494,6 +495,12 @@ fn corpus() -> Vec<Case> {
         c("null-default-at-non-null-directive-arg", "query Q($v: Boolean = null) { f(n: 1) @skip(if: $v) }", lbl("5.8.5", "op/directive-arg@FIELD:top/null-default-at-non-null", "null-default-at-non-null")),
         c("null-default-at-non-null-in-fragment", "query Q($v: Int = null) { ...F } fragment F on Query { f(n: $v) }", lbl("5.8.5", "frag1/arg:top/null-default-at-non-null", "null-default-at-non-null")),
         c("nullable-item-variable", "query Q($v: [Int]) { f(n: 1, nl: $v) }", lbl("5.8.5", "op/arg:top/nullable-item-at-non-null-item", "list-shape-mismatch")),
+        // DESIGN §9-f: a repeated argument name; only the first occurrence is type-checked
+        c("f-repeated-argument-wrong-value", "query Q { f(n: 1, n: \"s\") }", lbl("5.4.2", "op/repeated-argument", "duplicate-argument-wrong-value")),
+        // variables in the directives of a fragment DEFINITION belong to the operations that spread the fragment
+        c("undefined-variable-in-fragment-definition-directive", "query Q { a { ...F } } fragment F on A @tag(label: $nope) { x }", lbl("5.8.3", "frag1/directive-arg@FRAGMENT_DEFINITION:top", "undefined-variable")),
+        c("incompatible-variable-in-fragment-definition-directive", "query Q($v: Int) { a { ...F } } fragment F on A @tag(label: $v) { x }", lbl("5.8.5", "frag1/directive-arg@FRAGMENT_DEFINITION:top", "incompatible-variable-type")),
+        c("variable-in-fragment-definition-directive-ok", "query Q($v: String) { a { ...F } } fragment F on A @tag(label: $v) { x }", vec![]),
         // C04 rows
         c("l-int-for-float", "query Q { f(n: 1, fl: 1) }", vec![]),
         c("l-int-for-id", "query Q { f(n: 1, id: 1) }", vec![]),
